@@ -169,5 +169,6 @@ def trace_findings(result: dict, rec: dict) -> list[tuple[set[str], str, dict]]:
                     {"what": "a second compile() with the same Compiler gives a different result", "first": rec["pickles"], "second": rec["pickles_again"]}))
     for k, ok in e["p"].items():
         if not ok:
-            out.append(({PRED_OWNER[k.split("_")[0]]}, f"predicate:{k}", {"predicate": k, "evaluated_on": "implementation result"}))
+            own = {"C14", "C02"} if k == "c14_iff" else {PRED_OWNER[k.split("_")[0]]}
+            out.append((own, f"predicate:{k}", {"predicate": k, "evaluated_on": "implementation result"}))
     return out
